@@ -24,10 +24,10 @@ def OtherStep (P : Prog) (c : Cfg) (rest : List Instr) : Prop := OtherRes (step 
 macro "soft_field" : tactic => `(tactic| (
   (try simp [push, Cfg.trace, Cfg.write, Cfg.newSig, enqueue_eq, redraw_eq, emit_eq, newIH]) <;>
   repeat' first
-    | exact CodeExt.refl _
+    | exact CodeExt.refl _ _
     | exact Ext.refl _ _
     | exact HExt.refl _
-    | exact CodeExt.dropPS _ _ (by intro i; cases i <;> rfl)
+    | exact CodeExt.dropPS _ _ (by intro i; cases i <;> rfl) (by assumption)
     | apply CodeExt.append (softI_go _ _ _ _ (by simp))
     | apply CodeExt.consPS
     | apply CodeExt.consPI
